@@ -141,6 +141,13 @@ RefBounds(fs, num) ==
 RefPrefix(fs) == IF \E i \in 1..Len(fs) : fs[i].num = 4
                  THEN LET i == CHOOSE j \in 1..Len(fs) : fs[j].num = 4 IN Start(fs, i) + fs[i].tl + fs[i].ll
                  ELSE Total(fs)
+\* fstree/head.go: Head / GetStream / ReadHeader / ReadObjectParts extract the header from the first
+\* NonPayloadFieldsBufferLength bytes of the (decompressed) stored object
+HeadBufLen == 20480
+HeadRead(fs) == Extract(fs, IF Total(fs) < HeadBufLen THEN Total(fs) ELSE HeadBufLen)
+\* size of everything before the payload value (ID, signature, header, payload tag and length)
+NonPayloadSize(fs) == RefPrefix(fs)
+
 Within(b, lim) == b[1] >= 0 /\ b[1] <= b[2] /\ b[2] <= b[3] /\ b[3] <= lim
 AllWithin(r, lim) == Within(r.id, lim) /\ Within(r.sig, lim) /\ Within(r.hdr, lim)
 =============================================================================
